@@ -176,6 +176,11 @@ def walkRun (j : Json) : Except String Json := do
         | .error _ => pure none
       pure (Fault.withFault x0 foids (← getInt f "status") (← getInt f "index") vbs')
     | .error _ => pure x0
+  let x ← match (← j.getObjVal? "agent").getObjVal? "policy" with
+    | .ok p => match p.getObjVal? "starve" with
+      | .ok t => do pure (Fault.starve x (← oidOfJson t))
+      | .error _ => pure x
+    | .error _ => pure x
   let r ← match kind with
     | "getnext" => pure (Walk.walkGetnext x roots lenient fuel)
     | "bulk" => do
